@@ -393,7 +393,9 @@ func (p *Path) applySpec(in ssa.Instruction, site string, spec *FuncSpec, what s
 	if strings.HasPrefix(what, "iface:") && len(args) > 0 {
 		p.dispatchFacts(what, args, res, resTy, &pre)
 	}
+	p.lastRet = res
 	p.siteGhosts(in, "after")
+	p.lastRet = Val{}
 	return res
 }
 
@@ -705,6 +707,9 @@ func (p *Path) siteGhosts(in ssa.Instruction, when string) {
 		if g.When != when || g.Callee != short || (g.Ord != 0 && g.Ord != ord) {
 			continue
 		}
+		if when == "after" && p.lastRet.T != "" {
+			argVars["ret"] = p.lastRet
+		}
 		c := p.specCtx().with(argVars)
 		switch g.Kind {
 		case "set":
@@ -718,6 +723,8 @@ func (p *Path) siteGhosts(in ssa.Instruction, when string) {
 				p.specError("ghost set", Clause{Src: g.Src, File: fx.spec.File}, err)
 				continue
 			}
+			// a ghost update is a write like any other: it must be covered by the function's modifies clause
+			p.frameCheck(site+"."+when+".ghost", p.flatLocs(a, t))
 			p.store(a, t, v.T)
 		case "assert":
 			t, err := c.EvalBool(g.Value)
